@@ -49,9 +49,9 @@ def gen(case_lines, outdir, nunits=16):
     asts, pairs = {}, {}
     for l in case_lines:
         c = json.loads(l)
-        if c["op"] == "OpApply":
+        if c["op"] in ("OpApply", "FpApply"):
             asts.setdefault(canon(c["ast"]), c["ast"])
-        elif c["op"] == "OpBF":
+        elif c["op"] in ("OpBF", "FpBF"):
             k1, k2 = canon(c["e1"]), canon(c["e2"])
             asts.setdefault(k1, c["e1"])
             asts.setdefault(k2, c["e2"])
@@ -59,7 +59,7 @@ def gen(case_lines, outdir, nunits=16):
     apply_keys = set()
     for l in case_lines:
         c = json.loads(l)
-        if c["op"] == "OpApply":
+        if c["op"] in ("OpApply", "FpApply"):
             apply_keys.add(canon(c["ast"]))
     names = {k: "E%d" % i for i, k in enumerate(sorted(asts))}
     os.makedirs(outdir, exist_ok=True)
